@@ -546,6 +546,21 @@ func checkAbortAttribution(c *Ctx, r *Run) {
 					return
 				}
 			}
+			// an error value built from the received message itself by a helper of the package (a typed "peer aborted"
+			// error): the abort notice of a peer, attributed to that peer
+			if cc, ok := src.(*ssa.Call); ok && localHelperOf(cc) != nil && len(culprits) == 1 && !spread {
+				fromMsg := false
+				for _, a := range cc.Call.Args {
+					if ls := paramFields(fn, a); len(ls) > 0 && strings.HasPrefix(ls[0], "Message") {
+						fromMsg = true
+					}
+				}
+				if fromMsg {
+					ok := strings.Join(paramFields(fn, culprits[0]), "+") == "Message.From"
+					r.Check("OB-B1", key+"|abort-notice", c.Pos(call.Pos()), ok, "a relayed abort notice is attributed to the peer it came from, nothing more", "abort notice names "+culpritDesc(fn, culprits))
+					return
+				}
+			}
 			r.Fail("OB-B1", key+"|unclassified@"+fn.Name()+siteIdx(call), c.Pos(call.Pos()), "every abort site has a known attribution rule", "UNDECIDED: abort with error "+path(errArg)+" and culprits "+culpritDesc(fn, culprits))
 		})
 	}
